@@ -82,6 +82,7 @@ func TestC01Recheck(t *testing.T) {
 func TestC01(t *testing.T) {
 	p := defaultProfile()
 	p.MinBlocks, p.MaxBlocks = 8, 40
+	p.Alt, p.PAlt = massExitProfile(), 30
 	runCheck(t, "C01", p, func(src Source, st *Stats) *Outcome {
 		c, err := RunPrimary("C01", src, nil)
 		out := &Outcome{Case: c}
@@ -92,22 +93,34 @@ func TestC01(t *testing.T) {
 			out.Err = err
 			return out
 		}
-		// second replica: other directory, opened later, fresh maps
-		sb, resB, rerr := runReplica(c.Hist, nil, nil)
-		defer sb.Close(true)
-		if rerr != nil {
-			out.Err = violationf("replica B failed where replica A did not: %v", rerr)
-			return out
+		// further replicas: other directories, opened later, fresh maps. Histories in which several keys leave
+		// one ledger in the same block (the shape on which iteration-order dependence shows with probability < 1)
+		// get two more replicas.
+		extra := 1
+		if c.W.Feat["refund_multi_same_block"] > 0 || c.W.Feat["delegatees_deleted_same_block"] > 0 {
+			extra = 3
+			st.label("histories_with_multi_removal_block(4 replicas)", 1)
 		}
-		for i := range c.Results {
-			if d := diffBlock(c.Results[i], resB[i]); d != "" {
-				out.Err = violationf("replicas diverge: %s", d)
+		for r := 0; r < extra; r++ {
+			sb, resB, rerr := runReplica(c.Hist, nil, nil)
+			if rerr != nil {
+				sb.Close(true)
+				out.Err = violationf("replica %c failed where replica A did not: %v", 'B'+r, rerr)
 				return out
 			}
-		}
-		if sb.H != c.Sim.H || !bytes.Equal(sb.AppHash, c.Sim.AppHash) {
-			out.Err = violationf("final state differs: %d/%x vs %d/%x", c.Sim.H, c.Sim.AppHash, sb.H, sb.AppHash)
-			return out
+			for i := range c.Results {
+				if d := diffBlock(c.Results[i], resB[i]); d != "" {
+					sb.Close(true)
+					out.Err = violationf("replicas A and %c diverge: %s", 'B'+r, d)
+					return out
+				}
+			}
+			if sb.H != c.Sim.H || !bytes.Equal(sb.AppHash, c.Sim.AppHash) {
+				sb.Close(true)
+				out.Err = violationf("final state differs: %d/%x vs %d/%x", c.Sim.H, c.Sim.AppHash, sb.H, sb.AppHash)
+				return out
+			}
+			sb.Close(true)
 		}
 		// non-trivial: some block wrote >= 2 distinct keys of one ledger, plus a contract tx and a validator-set change
 		multi, contract, valchg := false, c.W.Feat["ok_deploy"]+c.W.Feat["ok_call"] > 0, false
